@@ -141,6 +141,8 @@ def gen_scenario(prng, tier, index, focus):
         if prng.random() < 0.5:
             # interrupt at an arbitrary executed LINE of library code instead of at a draw
             sc["abort_line"] = prng.choice((prng.randrange(0, 60), prng.randrange(0, 2000), prng.randrange(0, 40000)))
+    if prng.random() < 0.3:
+        sc["reuse_object"] = True       # one rewiring object for the whole history (limit raised through the setter)
     return sc
 
 
@@ -173,6 +175,11 @@ def run_history(sc, ctx, prefix, on_state, on_abort=None):
         from .simrandom import HarnessError
         raise HarnessError(f"scenario construction failed: {e!r}")
     G0 = net.G
+    if G0.number_of_edges() < 2:
+        # no swap history exists on fewer than two edges (rewire() cannot even draw): outside every rewiring property
+        ctx.probe("network_with_fewer_than_two_edges_skipped")
+        ctx.inconclusive += 1
+        return {"states": 0, "inconclusive": True, "max_decisions": 0}
     before = netsim.snapshot(G0)
     src = ctx.source("rewire", sc.get("policy"))
     info = {"states": 0, "inconclusive": False, "net": net, "G0": G0, "ejks": ejks, "before": before,
@@ -180,11 +187,16 @@ def run_history(sc, ctx, prefix, on_state, on_abort=None):
     prev = G0.copy()
     for L in range(sc["K"]):
         src.restart()
-        try:
-            mc = MarkovChainMonteCarloRewiring(params_for(sc, net, ejks, L))
-        except Exception as e:
-            ctx.violate(f"{P}.raised", f"constructing the rewiring with an admissible dictionary raised {describe_exc(e)}")
-            return info
+        if sc.get("reuse_object") and L > 0:
+            # history on ONE rewiring object: the limit is raised through the public setter and rewire() is called again
+            mc.convergence_limit = L
+            ctx.probe("rewire_called_again_on_the_same_object")
+        else:
+            try:
+                mc = MarkovChainMonteCarloRewiring(params_for(sc, net, ejks, L))
+            except Exception as e:
+                ctx.violate(f"{P}.raised", f"constructing the rewiring with an admissible dictionary raised {describe_exc(e)}")
+                return info
         st, G = ctx.call(src, mc.rewire, budget=budget_for(L, info["max_decisions"] if L else None),
                          label=f"rewire[limit={L}]")
         info["max_decisions"] = max(info["max_decisions"], len(src.log))
